@@ -252,6 +252,9 @@ class World:
         # nargs
         self.nargs = z3.RecFunction('nargs', Cat, z3.IntSort())
         z3.RecAddDefinition(self.nargs, [c], z3.If(self.recog('Atom')(c), 0, 1 + self.nargs(L(c))))
+        # head_atom(c) = c.arg(0): the innermost result category
+        self.head_atom = z3.RecFunction('head_atom', Cat, Cat)
+        z3.RecAddDefinition(self.head_atom, [c], z3.If(self.recog('Atom')(c), c, self.head_atom(L(c))))
         # wf: what the rule functions need in order not to raise: non-empty atom names, slashes are one of / \\ |
         self.wf = z3.RecFunction('wf', Cat, z3.BoolSort())
         SLv = self.acc('Functor', 'slash')(c)
@@ -284,7 +287,7 @@ class World:
         obligations are always discharged with the real definitions."""
         if not hasattr(self, '_twins'):
             self._twins = []
-            for f in (self.strip, self.erase, self.subst, self.nleaves, self.leaf, self.size, self.hasfeat, self.nargs, self.str_spec, self.wf):
+            for f in (self.strip, self.erase, self.subst, self.nleaves, self.leaf, self.size, self.hasfeat, self.nargs, self.str_spec, self.wf, self.head_atom):
                 dom = [f.domain(i) for i in range(f.arity())]
                 g = z3.Function(f.name() + '_opaque', *dom, f.range())
                 self._twins.append((f, g(*[z3.Var(i, d) for i, d in enumerate(dom)])))
